@@ -19,6 +19,7 @@ from . import c14, common
 ID = "C15"
 LEVEL = "exploration"
 BATCH = 25
+PROBES_EXPECTED = ['probe:twin-compared', 'probe:stderr-nonempty']
 TIERS = {"quick": {"runs": 6000, "wall": 50}, "thorough": {"runs": 250000, "wall": 840}}
 RULE = ("each run draws a program, protocol version, knobs and a session of 1-12 lines: valid requests mixed with JSON objects whose documented "
         "keys carry arbitrary JSON (wrong types, extreme numbers, empty strings, nested containers), non-JSON lines, unknown/invisible options, "
@@ -115,6 +116,8 @@ def _offending(k, desc, version, sb):
         if spec is None or (isinstance(spec, list) and spec and spec[0] in ("slot", "hand", "tool") and os.path.isfile(srvgen.resolve_path(spec, sb) or "")
                             and not (spec[0] == "hand" and spec[1] == 99)):
             clean["load"] = spec
+        elif isinstance(spec, list) and spec and spec[0] == "dir" and not os.path.isdir(os.path.join(sb, "adir")):
+            return None, None  # an earlier `save` to the directory replaced it by a file: readable, not classified
         elif isinstance(spec, list) and spec and spec[0] in ("missing", "dir"):
             changed = True  # unreadable: offending, dropped
         else:
